@@ -494,7 +494,7 @@ func (w *world) do(op model.Op) (model.Result, int, *failure) {
 		if f := compareResult(op, want, got, d.Name()); f != nil {
 			return want, stepDone, f
 		}
-		if want.Err != "" && op.Kind != "SetFailure" {
+		if want.Err != "" && isDataOp(op.Kind) {
 			if after := d.Snapshot(); after != before {
 				return want, stepDone, newFail("failing request changed state", "%s %s (err %s):\n--- before\n%s--- after\n%s", d.Name(), op.Kind, got.Err, before, after)
 			}
@@ -692,3 +692,14 @@ func init() {
 
 // realDrivers returns fresh drivers for both clients.
 func realDrivers() []drv.Real { return []drv.Real{drv.NewV1(), drv.NewV2()} }
+
+// isDataOp: the operations C08 calls data operations (table management calls
+// are not required to be traceless when they fail: a rejected UpdateTable may
+// have registered attribute definitions, which no read can observe).
+func isDataOp(kind string) bool {
+	switch kind {
+	case "Put", "Update", "Delete", "Get", "Query", "Scan", "BatchWrite", "BatchGet", "TransactWrite":
+		return true
+	}
+	return false
+}
